@@ -371,6 +371,13 @@ int main(int argc, char **argv) {
     if (line == "end" && in_case) {
       in_case = false;
       fflush(out);
+      // delimit the executions in the hook trace (the children append to the same file)
+      if (const char *tr = getenv("INTERROGATE_VERIF_TRACE")) {
+        if (tr[0] != '\0') {
+          FILE *tf = fopen(tr, "a");
+          if (tf) { fprintf(tf, "{\"e\":\"Case\",\"id\":%s}\n", js(id).c_str()); fclose(tf); }
+        }
+      }
       pid_t pid = fork();
       if (pid == 0) {
         alarm(60);
